@@ -48,6 +48,11 @@ def e2e_job(ctx):
 def run(ctx):
     cov = pipe_jobs(ctx, "C02")
     e = e2e_job(ctx)
+    # established CONNECT tunnels over the real HTTP/3 path: patterned payloads both ways, half-close first
+    import h3_jobs
+    h3 = h3_jobs.h3_job(ctx, pairs=False)
+    h3.pop("h3_assumptions")
+    cov["http3_relay"] = {k: h3[k] for k in ("h3_vectors", "h3_relays", "h3_evaluations")}
     cov["end_to_end_scenarios"] = e["evaluations"]
     cov["traces_validated_against_impl"] += e["evaluations"]
     cov["evaluations"] += e["evaluations"]
@@ -60,7 +65,7 @@ def run(ctx):
     return ctx.finish("model_checking", cov, assumptions=[
         "Source/Sink contract (read cancel-safe, read after EOF yields EOF, write returns a suffix, wait_writable only returns with capacity) is assumed of endpoints here; the real endpoints are checked against it separately",
         "bounded model: scripts of <= 3 chunks, windows <= 2, T = 2..3 ticks, one injected fault",
-        "HTTP/3 endpoints are not driven",
+        "HTTP/3: established tunnels relay patterned payloads (up to 300 kB each way, client half-close first) through the real QUIC path; schedules there are whatever loopback UDP produces",
         "end-to-end part: over HTTP/1.1 only scenarios in which the side finishing second has nothing left to send are run for the client-first order (TLS carries no client half-close)",
         "trusted: TLC, the scripted endpoints of the harness, the verif::pipe door",
     ])
